@@ -6,7 +6,6 @@
 
 namespace vx {
 
-template<class S> inline unsigned nbits() { return 8 * sizeof(S); }
 
 // amount s in [0, bits]
 template<class S> inline std::uint64_t m_shl(S a, unsigned s) {
